@@ -36,6 +36,22 @@ def h_levels_1_2(c, n):
             want = want + c.pi() * h * (a["r"][p] * a["r"][p] + a["r"][p] * a["r"][i] + a["r"][i] * a["r"][i]) / 3
     c.prove_eq(f"level{lvl}", v, want)
     c.prove("input_untouched", And(*[eq(x, y) for x, y in zip(list(t.r()), a["r"])]))
+    # the volume is a function of the tree AS IT IS NOW: change a radius through a node handle and measure the same object again
+    if n >= 1:
+        k = c.choice("edit", n)
+        newr = c.real("new_r", lo=0, lo_strict=True)
+        t.node(k).r = newr
+        r2 = list(a["r"])
+        r2[k] = newr
+        with sdf_stubs(c):
+            v2 = get_volume(t, accuracy=lvl)
+        want2 = sum(_sphere_vol(c, r) for r in r2)
+        if lvl >= 2:
+            for i in range(1, n):
+                p = a["pid"][i]
+                h = dist([a[kk][p] for kk in "xyz"], [a[kk][i] for kk in "xyz"])
+                want2 = want2 + c.pi() * h * (r2[p] * r2[p] + r2[p] * r2[i] + r2[i] * r2[i]) / 3
+        c.prove_eq(f"level{lvl}.after_in_place_edit", v2, want2)
     c.output("volume", v)
 
 
